@@ -132,6 +132,16 @@ pub assume_specification [f64::abs] (a: f64) -> (r: f64) ensures r == fabsf(a);
 pub assume_specification [f64::is_nan] (a: f64) -> (r: bool) ensures r == fisnan(a);
 pub assume_specification [f64::is_finite] (a: f64) -> (r: bool) ensures r == fisfinite(a);
 pub assume_specification [f64::is_infinite] (a: f64) -> (r: bool) ensures r == fisinfinite(a);
+// further classification / sign predicates: deterministic functions about which nothing else is known
+// (code that switches to one of them no longer verifies against a contract stated with `>`, `is_finite`, ...)
+pub uninterp spec fn fisnormal(a: f64) -> bool;
+pub uninterp spec fn fissubnormal(a: f64) -> bool;
+pub uninterp spec fn fissignpos(a: f64) -> bool;
+pub uninterp spec fn fissignneg(a: f64) -> bool;
+pub assume_specification [f64::is_normal] (a: f64) -> (r: bool) ensures r == fisnormal(a);
+pub assume_specification [f64::is_subnormal] (a: f64) -> (r: bool) ensures r == fissubnormal(a);
+pub assume_specification [f64::is_sign_positive] (a: f64) -> (r: bool) ensures r == fissignpos(a);
+pub assume_specification [f64::is_sign_negative] (a: f64) -> (r: bool) ensures r == fissignneg(a);
 pub assume_specification [f64::powf] (a: f64, b: f64) -> (r: f64) ensures r == fpowf(a, b);
 pub assume_specification [f64::total_cmp] (a: &f64, b: &f64) -> (r: core::cmp::Ordering) ensures r == ftotalcmp(*a, *b);
 
